@@ -11,6 +11,7 @@ import BV.Props.C09
 import BV.Props.C10
 import BV.Props.C11
 import BV.Props.C12
+import BV.Props.C13
 import BV.Props.C15
 import BV.Props.C16
 import BV.Props.C18
